@@ -38,7 +38,8 @@ RULE = ("Hypothesis draws an MD job (engine, 4-14 steps, checkpoint cadence 1-7,
         "the k-th call of a named function (checkpoint writer/loader, HDF5/XYZ writers, flush, integrator step), or a torch.save torn "
         "after a drawn fraction of its bytes; modes hard (os._exit, buffers lost) and soft (BaseException, finally runs). "
         "non-trivial = a crash fired strictly after the first checkpoint or inside writer/checkpoint code, or >= 2 crashes fired; "
-        "distinct = case hash. For the stub engine with steps <= 6 every (statement index, mode) single-crash plan is enumerated.")
+        "distinct = case hash. every_statement: one fixed 5-step stub job per engine, a single crash at every statement index (thorough; every 5th index in "
+        "quick) x {hard, soft}.")
 ASSUMPTIONS = ["crash instants are Python statement boundaries of the two MD modules plus byte-level tearing of torch.save; tearing inside "
                "an HDF5 library write and kernel/page-cache reordering after power loss are not modelled",
                "stub engine: forces come from an analytic spring field; run loop, writers and checkpoint code are the repository's",
